@@ -505,6 +505,9 @@ func skipType(p unsafe.Pointer, e uintptr, t TType, maxdepth int) (int, error) {
 				return i, err
 			}
 			i += vi
+			if uintptr(p)+uintptr(i) > e { // a fixed-size value is not bounds-checked above
+				return 0, errBufferTooShort
+			}
 		}
 		return i, nil
 	case LIST, SET:
